@@ -184,6 +184,8 @@ def build_cases(seed, n, want, nphases=4):
             for nj in (1, 2):
                 cfgk = {"njob": nj, "resources": "gpu:2,tpu:1"}
                 ph0 = initial_phase(proj, cfg=cfgk, seed=seed + k)
+                if any(isinstance(e, dict) for e in hist):
+                    continue   # histories that change the invocation (targets) are for the trace checks
                 ph0["edits"] = list(ph0["edits"]) + list(hist[0])
                 ph = [ph0] + [{"edits": e, "how": "restart", "cfg": cfgk, "seed": seed * 7 + k * 10 + j} for j, e in enumerate(hist[1:])]
                 cases.append({"tid": f"shape-{name}-x{k}j{nj}", "project": proj, "phases": ph, "want": want, "seed": seed + k})
